@@ -51,9 +51,44 @@ def gen_cases(ctx):
                         "rem": 0, "pextra": 0, "rev": False})
     import sim_impl as si
 
+    # fixed: every particle dies of age after two steps, nothing is released later; unsplit and split output
+    for p, numrec in ((1, 0), (2, 0), (1, 3)):
+        N = 8
+        out.append({"k": "alldead", "numrec": numrec, "dead_from": 3, "seed": 60 + p + numrec,
+                    "env": {"N": N, "p": p, "life": 2, "utab": [[0.25, 0.5, 0.125] for _ in range(N)],
+                            "ttab": [[float(3 * n + 1), float(3 * n + 2), float(3 * n + 3)] for n in range(N)],
+                            "rows": [[0, 5.0, 1], [0, 7.0, 0], [1, 6.0, 2]]}})
     for _ in range(2 if ctx.quick else 20):
         out.append({"k": "warm", "env": si.make_env(rng, N=rng.randint(5, 9), p=rng.choice([1, 2])), "numrec": rng.choice([1, 2]), "seed": rng.randrange(10**6)})
     return out
+
+
+def eval_alldead(desc, d):
+    """a run through ladim.main in which every particle is dead well before the stop time and nothing is released
+    afterwards: the file still holds one record per due step to the end (the trailing ones empty, each with its time) and
+    the per-particle variables of every pid that was released"""
+    import sim_impl as si
+    from netCDF4 import Dataset
+
+    env, numrec = desc["env"], desc["numrec"]
+    recs, files, conf = si.run_forward(d, env, "dead", numrec=numrec)
+    N, p = env["N"], env["p"]
+    due = [s for s in range(N) if s % p == 0]
+    problems = []
+    if [r["step"] for r in recs] != due:
+        problems.append(f"records at steps {[r['step'] for r in recs]}, due {due} (all particles dead from step {desc['dead_from']} on)")
+    released = len(env["rows"])
+    seen = 0
+    for fi, f in enumerate(files):
+        with Dataset(f) as nc:
+            nrec = len(nc.variables["time"][:])
+            seen += nrec
+            rt = nc.variables["release_time"][:]
+            want = released  # every row is released during the first steps, before the first file ends
+            if nrec and len(rt) != want:
+                problems.append(f"{f.name}: particle variable release_time has {len(rt)} entries, {want} particles were released")
+    return {"ints": None, "oracle": "; ".join(problems[:2]) or None, "nontrivial": ("alldead", N, p, numrec), "kind": "main-all-dead",
+            "observed": {"records": [r["step"] for r in recs], "files": len(files)}}
 
 
 def eval_warm(desc, d):
@@ -90,6 +125,8 @@ def eval_case(desc, ctx):
         f.unlink()
     if desc["k"] == "warm":
         return eval_warm(desc, d)
+    if desc["k"] == "alldead":
+        return eval_alldead(desc, d)
     hist, p, numrec, layout = desc["hist"], desc["p"], desc["numrec"], desc["layout"]
     nsteps = len(hist)
     tstart = 200000
